@@ -1,6 +1,7 @@
 package openapiv3
 
 import (
+	"encoding/json"
 	"fmt"
 	"strings"
 
@@ -11,7 +12,6 @@ import (
 	"github.com/pb33f/libopenapi/orderedmap"
 	yaml "go.yaml.in/yaml/v4"
 	"google.golang.org/protobuf/compiler/protogen"
-	k8syaml "sigs.k8s.io/yaml"
 
 	"github.com/SebastienMelki/sebuf/internal/annotations"
 )
@@ -973,8 +973,14 @@ func (g *Generator) Render() ([]byte, error) {
 		if err != nil {
 			return nil, fmt.Errorf("failed to marshal to YAML: %w", err)
 		}
-		// Then convert YAML to JSON
-		jsonData, err := k8syaml.YAMLToJSON(yamlData)
+		// Then convert YAML to JSON with the same YAML library (YAML 1.2 core schema), so that
+		// plain keys and values such as "n", "y", "on" or "no" stay strings instead of being read
+		// as YAML 1.1 booleans
+		var generic any
+		if err = yaml.Unmarshal(yamlData, &generic); err != nil {
+			return nil, fmt.Errorf("failed to convert YAML to JSON: %w", err)
+		}
+		jsonData, err := json.Marshal(generic)
 		if err != nil {
 			return nil, fmt.Errorf("failed to convert YAML to JSON: %w", err)
 		}
